@@ -286,11 +286,14 @@ func init() {
 			for s := 0; s < n; s++ {
 				us = append(us, c09BFS(depth, s, n))
 				if s == 0 {
-					us = append(us, c09LateReplies())
+					us = append(us, c09LateReplies(), c09OwnRequestInFlight())
 				}
 			}
 			us = append(us, c09Race("close-old-vs-reconnect", bound+1), c09Race("two-closes-one-reconnect", bound+1))
 			us = append(us, c09Race("close-vs-peer", bound), c09Race("close-vs-peer-vs-connect", bound+1))
+			// the other instruction, vipnode_disconnect: every host of a cut-off client gets exactly one,
+			// on the connection it is registered on now (two hosts, one of them having moved)
+			us = append(us, c03FanoutAfterReconnect(vh.Memory))
 			us = append(us, c09Wire())
 			return us
 		},
@@ -372,6 +375,81 @@ func c09LateReplies() vh.Unit {
 			}
 		}
 		u.Sample("host over a real Remote pair answering the whitelist after 0s/4s/6s/20s/never, then closing the connection")
+	}}
+}
+
+// a host's connection ends while a request of that same host is still being served (its peer
+// request waits for another host's slow whitelist answer): the registration goes when the
+// connection goes - it does not wait for the request
+func c09OwnRequestInFlight() vh.Unit {
+	name := "rpc-host-hangs-up-with-own-request-in-flight"
+	ids := vh.Identities()
+	hostA, hostB := ids[1], ids[2]
+	return vh.Unit{Name: name, Run: func(u *vh.U) {
+		for _, delay := range []time.Duration{4 * time.Second, 20 * time.Second, -1} {
+			remotesSoonAfter, remotesLater, served := -1, -1, false
+			s := vsched.Run(vsched.Options{Drain: true, MaxTime: time.Hour}, func() {
+				pw := vh.NewPoolWorld(vh.PoolConfig{Driver: vh.Memory, NoManager: true})
+				mk := func(agent interface{}) (poolSide, hostSide *jsonrpc2.Remote, hostCodec *vh.MemCodec) {
+					ca, cb := vh.NewMemPipe(8)
+					poolSide = &jsonrpc2.Remote{Codec: ca, Client: &jsonrpc2.Client{}, Server: &jsonrpc2.Server{}}
+					hostSide = &jsonrpc2.Remote{Codec: cb, Client: &jsonrpc2.Client{}, Server: &jsonrpc2.Server{}}
+					if err := poolSide.Server.Register("vipnode_", pw.Pool, "connect", "disconnect", "ping", "update", "peer", "client", "host"); err != nil {
+						panic(err)
+					}
+					if err := hostSide.Server.RegisterMethod("vipnode_whitelist", agent, "Whitelist"); err != nil {
+						panic(err)
+					}
+					return poolSide, hostSide, cb
+				}
+				poolA, sideA, codecA := mk(&C09SlowAgent{})
+				poolB, sideB, _ := mk(&C09SlowAgent{Delay: delay})
+				vsched.GoNamed("pool-serve-A", func() {
+					poolA.Serve()
+					served = true
+					pw.Pool.CloseRemote(poolA)
+				})
+				vsched.GoNamed("pool-serve-B", func() { poolB.Serve(); pw.Pool.CloseRemote(poolB) })
+				vsched.GoNamed("host-serve-A", func() { sideA.Serve() })
+				vsched.GoNamed("host-serve-B", func() { sideB.Serve() })
+				send := func(side *jsonrpc2.Remote, c vh.Call) error {
+					var raw json.RawMessage
+					return side.Call(context.Background(), &raw, c.Endpoint, c.Sig, c.ID, c.Nonce, c.Param)
+				}
+				now := vsched.Now().UnixNano()
+				if err := send(sideA, vh.NewCall("vipnode_connect", hostA, now+1, pool2ConnectHost())); err != nil {
+					panic(err)
+				}
+				if err := send(sideB, vh.NewCall("vipnode_connect", hostB, now+2, pool2ConnectHost())); err != nil {
+					panic(err)
+				}
+				// host A asks for a peer: the pool asks host B, who takes its time
+				vsched.GoNamed("a-peer-request", func() {
+					send(sideA, vh.NewCall("vipnode_peer", hostA, now+3, vh.DefaultParam("vipnode_peer", "")))
+				})
+				vsched.Sleep(time.Second)
+				codecA.Close() // host A hangs up, its request still in flight
+				vsched.Sleep(time.Second)
+				remotesSoonAfter = pw.Pool.NumRemotes()
+				vsched.Sleep(30 * time.Second)
+				remotesLater = pw.Pool.NumRemotes()
+			})
+			u.R.Evaluations++
+			u.R.States++
+			u.R.Transitions += int64(len(s.Trace))
+			u.R.Traces++
+			u.Observe(fmt.Sprintf("delay=%s soon=%d later=%d", delay, remotesSoonAfter, remotesLater))
+			desc := fmt.Sprintf("hosts A and B registered over real connections; A sends a peer request, B answers the pool's whitelist request after %s (negative: never); A's connection closes one second into that", delay)
+			switch {
+			case s.Panic != nil:
+				u.Violate("registry/panic", fmt.Sprintf("%s: %v", desc, s.Panic), nil)
+			case remotesSoonAfter != 1:
+				u.Violate("registry/closed-host-still-registered", fmt.Sprintf("%s: one second after the close %d hosts are registered (A must be gone, B must stay)", desc, remotesSoonAfter), nil)
+			case remotesLater != 1 || !served:
+				u.Violate("registry/hang-up-not-noticed", fmt.Sprintf("%s: 30 s later %d hosts are registered, serve loop of A's connection ended=%v", desc, remotesLater, served), nil)
+			}
+		}
+		u.Sample("host A's connection closing while A's own peer request waits for host B's slow whitelist answer")
 	}}
 }
 
